@@ -324,7 +324,7 @@ Proof.
       rewrite (loop_loopn _ _ _ (loopn_addrs _ _ _ _ _ _ _ (G2 a Ha))).
       cbn [cont]. unfold ast at 1. cbn [done]. fold (ast false rdt p (addrs tz (g a)) ser (single (soa_rr v))).
       inversion Hh as [|? ? Hw Hws]; subst.
-      rewrite drive_cons. unfold from_wire.
+      rewrite drive_cons by solve_req. unfold from_wire.
       rewrite process_running; [|apply running_ast|apply Hw|apply Hw]. cbn [m_answer].
       cbn [map concat] in Hrest.
       assert (Hz1 : zsorted (addrs tz (g a))).
@@ -388,7 +388,7 @@ Theorem axfr_converges : forall v z0 ser ws,
 Proof.
   intros v z0 ser ws Hv Hch. unfold axfr_stream in Hch.
   apply chunking_first in Hch. destruct Hch as (w & ws' & a & -> & Hr & Hw & Hws & Hcat).
-  unfold inbound_xfr, xfr_run. rewrite init_axfr. cbn [Z.eqb tAXFR tIXFR Pos.eqb]. rewrite drive_cons.
+  unfold inbound_xfr, xfr_run. rewrite init_axfr. cbn [Z.eqb tAXFR tIXFR Pos.eqb]. rewrite drive_cons by solve_req.
   rewrite (first_message_axfr z0 ser w (soa_rr v) a Hw Hr) by (split; reflexivity).
   destruct Hv as [Httl Hwf].
   destruct (cont_full ws' false (map single) a tAXFR z0 [] (match ser with Some sv => sv | None => 0 end) v
@@ -437,7 +437,7 @@ Proof.
     exists z', n. split; [exact Hn|exact Hz'].
   - destruct a as [|y a].
     + cbn [map loopT cont ist done]. inversion Hh as [|? ? Hw Hws]; subst.
-      rewrite drive_cons. unfold from_wire. rewrite group_true.
+      rewrite drive_cons by solve_req. unfold from_wire. rewrite group_true.
       rewrite process_running; [|repeat split; try reflexivity; discriminate|apply Hw|apply Hw]. cbn [m_answer].
       cbn [app map concat] in Hcat.
       destruct (IH (w_records w) p tz ser v r c Httl Hws Hr Hc Hcat) as [z' [n [Hn Hz']]].
@@ -474,7 +474,7 @@ Proof.
     rewrite rrs_of_entry_mk in Eb. destruct k as [[n ty] cv]. cbn in He.
     destruct He as (_ & _ & _ & Hds & _). destruct ds; [congruence|discriminate]. }
   inversion Hpl as [|? ? Hpr Hpc]; subst.
-  unfold inbound_xfr, xfr_run. rewrite init_ixfr. cbn [Z.eqb tIXFR Pos.eqb]. rewrite drive_cons.
+  unfold inbound_xfr, xfr_run. rewrite init_ixfr. cbn [Z.eqb tIXFR Pos.eqb]. rewrite drive_cons by solve_req.
   rewrite (first_message_ixfr z0 ser false w (soa_rr v) a Hw Hr) by (split; reflexivity).
   cbv zeta. change (r_data (soa_rr v) mod two32) with (v_serial v).
   apply Z.eqb_neq in Hs. rewrite Hs, Hlt. cbn [andb]. rewrite after_tcp by reflexivity.
